@@ -425,13 +425,15 @@ func init() {
 	})
 	kernel.Register(&kernel.Check{
 		ID: "C24", Level: "exploration", Engine: "E1 lightclient-ont/neo (lcont)",
-		Rule: "per run one simulated side chain (50% Ontology, 30% NEO, 20% NEO N3) with its trust root installed and headers synced honestly up to a random point (so 1-4 tracked peer sets / validator sets of sizes 4-7 are in force for different heights); then 8-22 cross-chain messages for random heights, through header_sync.syncCrossChainMsg (Ontology) and through cross_chain_manager.importOuterTransfer with a valid merkle / MPT proof of a cross-chain state (all three), each signed under a fault mode: honest 2/3+, exactly the required count, one below, ONE TRACKED SIGNER LISTED k TIMES, duplicates padding the count, a repeated signer combined with listed tracked members that did not sign ([A,A,B]+[sA,sA], [B,A,A]+[sA,sA,sX], [A,B,C,A]+[sA,sB,sA]), outsiders padding / only, invalid / foreign / truncated signature, missing signature, previous set, other script / lowered-m script (NEO); replayed deposits as C20 probes; 22% of the Ontology runs first relay configuration-change headers out of height order and then send messages signed by the newest / a stale tracked set. oracle: acceptance (message stored / deposit succeeded) implies the number of DISTINCT tracked members listed with a valid signature >= required (ceil(N/3) for this Ontology light client, m of the tracked m-of-n script for NEO, n-(n-1)/3 of the registered state validators for N3). non-trivial/distinct as C31",
+		Rule: "per run one simulated side chain (50% Ontology, 30% NEO, 20% NEO N3) with its trust root installed and headers synced honestly up to a random point (so 1-4 tracked peer sets / validator sets of sizes 4-7 are in force for different heights); then 8-22 cross-chain messages for random heights, through header_sync.syncCrossChainMsg (Ontology) and through cross_chain_manager.importOuterTransfer with a valid merkle / MPT proof of a cross-chain state (all three), each signed under a fault mode: honest 2/3+, exactly the required count, one below, ONE TRACKED SIGNER LISTED k TIMES, duplicates padding the count, a repeated signer combined with listed tracked members that did not sign ([A,A,B]+[sA,sA], [B,A,A]+[sA,sA,sX], [A,B,C,A]+[sA,sB,sA]), outsiders padding / only, invalid / foreign / truncated signature, missing signature, previous set, other script / lowered-m script (NEO), k-of-n scripts over exactly the tracked keys with k = m-1 and m+1 and exactly k valid distinct signers, N3 state-validator sets of every size 1..10 (sizes 3, 6, 9 over-weighted); replayed deposits as C20 probes; 22% of the Ontology runs first relay configuration-change headers out of height order and then send messages signed by the newest / a stale tracked set. oracle: acceptance (message stored / deposit succeeded) implies the number of DISTINCT tracked members listed with a valid signature >= required (ceil(N/3) for this Ontology light client, m of the tracked m-of-n script for NEO, n-(n-1)/3 of the registered state validators for N3). non-trivial/distinct as C31",
 		Real: lcReal, Stub: lcStub,
 		Assumptions: []string{"required count for Ontology taken from the property text of C31 (one third of the tracked peer set)", "message acceptance through the deposit path is observed as success of the whole import (valid proof, registered destination)"},
 		QuickRuns:   320, ThoroughRuns: 24000, QuickCap: 60, ThoroughCap: 800,
 		RequiredProbes: []string{"ont_msg:honest:accepted", "ont_dep:honest:accepted", "ont_msg:dup-one:rejected", "ont_dep:dup-one:rejected", "ont_msg:dup-pad:rejected", "ont_msg:dup-silent:rejected", "ont_dep:dup-silent:rejected", "ont_msg:silent-dup-extra:rejected", "ont_msg:dup-silent-partial:rejected", "ont_msg:below-third:rejected", "ont_msg:foreign-pad:rejected", "ont_msg:bad-sig:rejected", "ont_msg_accepted_exactly_at_required_count", "ont_key_header_recorded_below_an_already_recorded_key_height", "ont_after_out_of_order_keys_msg:stale-set/honest:rejected", "ont_after_out_of_order_keys_msg:newest-set/honest:accepted", "ont_after_out_of_order_keys_dep:stale-set/honest:rejected", "ont_after_out_of_order_keys_dep:newest-set/honest:accepted",
 			"neo_msg:honest:accepted", "neo_msg:below-m:rejected", "neo_msg:dup-sig:rejected", "neo_msg:other-script:rejected",
-			"neo3_msg:honest:accepted", "neo3_msg:dup-sig:rejected", "neo3_msg:other-script:rejected"},
+			"neo3_msg:honest:accepted", "neo3_msg:dup-sig:rejected", "neo3_msg:other-script:rejected",
+			"neo3_msg_tracked_set_size_divisible_by_3", "neo3_msg:m-minus-one-script:rejected", "neo3_msg_m_minus_one_script_rejected_at_size_divisible_by_3", "neo3_msg_honest_accepted_at_size_divisible_by_3", "neo3_msg:m-plus-one-script:rejected",
+			"neo3_msg_presented_to_tracked_set_size_3", "neo3_msg_presented_to_tracked_set_size_6", "neo3_msg_presented_to_tracked_set_size_9"},
 		Generate: func(rng *kernel.RNG, idx int, tier string) *kernel.Plan {
 			switch famOf(idx, tier) {
 			case 1:
